@@ -521,6 +521,8 @@ val u24 : n -> byte list
 
 val u32 : n -> byte list
 
+val u64 : n -> byte list
+
 type slice = { off : n; bytes : byte list }
 
 val slen : slice -> n
@@ -1923,6 +1925,44 @@ val grecord : (byte list * tlsPlaintext) g
 val gcase_multi : case list g
 
 val families_tls : (string * case list g) list
+
+val enc_dh : serverDHParams -> byte list
+
+val enc_explicit_prime : explicitPrimeC -> byte list
+
+val enc_ecparams : eCParameters -> byte list
+
+val enc_ecdh : serverECDHParams -> byte list
+
+val enc_signed : digitallySigned -> byte list
+
+val enc_sct_body : sCT -> byte list
+
+val enc_sct : sCT -> byte list
+
+val enc_sct_list : sCT list -> byte list
+
+val gb8 : slice g
+
+val gb16 : slice g
+
+val gdh : serverDHParams g
+
+val gep : explicitPrimeC g
+
+val gecparams : eCParameters g
+
+val gecdh : serverECDHParams g
+
+val gsigned : bool -> digitallySigned g
+
+val gsct : sCT g
+
+val gcase_kx : case list g
+
+val gcase_ct : case list g
+
+val families_kx : (string * case list g) list
 
 val all_families : (string * case list g) list
 
